@@ -7,7 +7,8 @@
          current generation;
      R3  a target that exists and belongs to this controller (the winning Gateway; a Route of the policy's namespace
          that names one of this controller's Gateways as parent) has an entry - when the class is active, a Gateway wins
-         and the policy's ancestor list was not filled by other controllers;
+         and the policy's ancestor list is not full (16 entries: filled by other controllers, or by them and the entries of earlier
+         targets);
      R4  at most 16 entries in all (CRD limit), and the entries of other controllers are still there;
      R5  every entry of this controller corresponds to a target: a Route entry to a Route target of that kind and
          name, a Gateway entry to a Gateway target of that name or - the ancestor of Service-targeted policies being the
@@ -58,7 +59,7 @@ Definition route_is_ours (cs : cluster) (r : route) : bool :=
 Definition kind_of_route (r : route) : string := match rt_kind r with KGRPC => "GRPCRoute" | _ => "HTTPRoute" end.
 
 Definition r3 (cs : cluster) (p : pol_status) : bool :=
-  if negb (class_active cs) || Nat.leb 16 (pl_foreign_before p) then true else
+  if negb (class_active cs) || Nat.leb 16 (pl_foreign_before p) || Nat.leb 16 (List.length (pl_entries p)) then true else
   match winning_gateway cs with
   | None => true
   | Some g =>
